@@ -57,6 +57,7 @@ func newPump(kind string) (*pump, error) {
 	p.s.BindRTCPReader()
 	if p.cp.local {
 		p.s.BindLocal(1, true)
+		p.s.BindLocal(2, false) // nothing negotiated: tracked by SSRC and sequence number where it is tracked at all
 	}
 	if p.cp.remote {
 		p.s.BindRemote(1, true)
@@ -70,6 +71,10 @@ func (p *pump) write(seq uint16) {
 	h, pl := hk.Shape(0, l.Info.SSRC, seq, uint32(seq)*90)
 	_ = h.SetExtension(hk.TwccExtID, []byte{byte(p.tseq >> 8), byte(p.tseq)})
 	_, _ = l.W.Write(&h, pl, nil)
+	// the same sequence number pattern (incl. duplicates and late packets) on the plain stream
+	l2 := p.s.Locals[2]
+	h2, pl2 := hk.Shape(0, l2.Info.SSRC, seq, uint32(seq)*90)
+	_, _ = l2.W.Write(&h2, pl2, nil)
 }
 
 func (p *pump) read(seq uint16) {
